@@ -984,6 +984,21 @@ namespace c13
                 lastOp = "clear";
                 sink.count("c13_clear");
             }
+            else if (r < 99)
+            {
+                // abandoned creation: createCell() (which already updates the neighbours' counts, flags and queues) followed by
+                // remove() + destroyCell() WITHOUT add(); documented: "if the cell has not been added to the grid, only update
+                // the neighbor list". The grid must be exactly as before.
+                if (!model.count(key))
+                {
+                    Cell *cell = static_cast<Cell *>(grid.createCell(cc));
+                    cell->data = (int)rng.ui(1000);
+                    grid.remove(cell);
+                    grid.destroyCell(cell);
+                    lastOp = "create+remove+destroy (never added)";
+                    sink.count("c13_abandoned_creation");
+                }
+            }
             // ---- compare with the model ----
             if (grid.size() != model.size()) sink.viol("C13:size:" + GN, detail("size() differs").i("got", grid.size()));
             if (grid.empty() != model.empty()) sink.viol("C13:empty:" + GN, detail("empty() wrong"));
